@@ -101,47 +101,68 @@ theorem lateInput_total (st : State) (c : Conn) (i : Input) :
   | eof => exact rtspInput_total st c _
   | idle => exact rtspInput_total st c _
 
+theorem connInput0_total (st : State) (c : Conn) (i : Input) :
+    Answered c.id (connInput0 st c i).2 ∨ Out.connClose c.id ∈ (connInput0 st c i).2 ∨
+    (Out.consumed c.id ∈ (connInput0 st c i).2 ∧ Consumable c i) ∨
+    ((connInput0 st c i).2 = [] ∧ ∃ k, c.phase = .httpWait k ∧ i ≠ .idle) := by
+  unfold connInput0
+  cases hp : c.phase with
+  | httpWait k =>
+    simp only
+    by_cases hi : i = .idle
+    · right; left; subst hi; simp only [beq_self_eq_true, if_true]; exact closeConn_emits st c
+    · right; right; right
+      have : (i == Input.idle) = false := by simpa using hi
+      simp only [this]
+      exact ⟨by simp, k, rfl, hi⟩
+  | fresh =>
+    rcases freshInput_total st c i with h | h | ⟨h, h'⟩
+    · left; exact h
+    · right; left; exact h
+    · right; right; left; exact ⟨h, Or.inl h'⟩
+  | standard =>
+    rcases lateInput_total st c i with h | h | h
+    · left; exact h
+    · right; left; exact h
+    · right; right; left; exact h
+  | tcp =>
+    rcases lateInput_total st c i with h | h | h
+    · left; exact h
+    · right; left; exact h
+    · right; right; left; exact h
+
+/-- the outputs of an input the connection sees are those of `connInput0` -/
+theorem connInput_outs (st : State) (c : Conn) (i : Input) (h : ¬ (i == Input.idle && !deadlineArmed st c) = true) :
+    (connInput st c i).2 = (connInput0 st c i).2 := by
+  unfold connInput
+  have h' : (i == Input.idle && !deadlineArmed st c) = false := by simpa using h
+  rw [h']
+  simp only [Bool.false_eq_true, if_false]
+  split <;> rfl
+
 /-- **Every input is answered, or closes the connection, or is one of the inputs that need no
 answer** (skipped bytes, a frame in TCP mode), or is an event the connection cannot see. -/
 theorem connInput_total (st : State) (c : Conn) (i : Input) : Handled st c i (connInput st c i).2 := by
-  unfold Handled connInput
+  unfold Handled
   by_cases hidle : (i == Input.idle && !deadlineArmed st c) = true
   · right; right; right
+    unfold connInput
     simp only [hidle, if_true, true_and]
     left
     simpa using hidle
-  · simp only [hidle]
-    cases hp : c.phase with
-    | httpWait k =>
-      simp only
-      by_cases hi : i = .idle
-      · right; left; subst hi; simp only [beq_self_eq_true, if_true]; exact closeConn_emits st c
-      · right; right; right
-        have : (i == Input.idle) = false := by simpa using hi
-        simp only [this]
-        exact ⟨by simp, Or.inr ⟨k, hp, hi⟩⟩
-    | fresh =>
-      rcases freshInput_total st c i with h | h | ⟨h, h'⟩
-      · left; exact h
-      · right; left; exact h
-      · right; right; left; exact ⟨h, Or.inl h'⟩
-    | standard =>
-      rcases lateInput_total st c i with h | h | h
-      · left; exact h
-      · right; left; exact h
-      · right; right; left; exact h
-    | tcp =>
-      rcases lateInput_total st c i with h | h | h
-      · left; exact h
-      · right; left; exact h
-      · right; right; left; exact h
+  · rw [connInput_outs st c i hidle]
+    rcases connInput0_total st c i with h | h | h | ⟨h, h'⟩
+    · left; exact h
+    · right; left; exact h
+    · right; right; left; exact h
+    · right; right; right; exact ⟨h, Or.inr h'⟩
 
 /-- **A request is always answered** (on a connection that reads RTSP). -/
 theorem request_answered (st : State) (c : Conn) (r : Req) (hp : ∀ k, c.phase ≠ .httpWait k) :
     ∃ n, Out.rtsp c.id n ∈ (connInput st c (.req r)).2 := by
-  unfold connInput
-  have : (Input.req r == Input.idle) = false := by simp
-  simp only [this, Bool.false_and, Bool.false_eq_true, if_false]
+  have h0 : ¬ (Input.req r == Input.idle && !deadlineArmed st c) = true := by simp
+  rw [connInput_outs st c _ h0]
+  unfold connInput0
   cases hph : c.phase with
   | httpWait k => exact absurd hph (hp k)
   | fresh =>
@@ -157,8 +178,9 @@ theorem request_answered (st : State) (c : Conn) (r : Req) (hp : ∀ k, c.phase 
 /-- **While the deadline is armed, silence closes the connection.** -/
 theorem idle_closes (st : State) (c : Conn) (h : deadlineArmed st c = true) :
     Out.connClose c.id ∈ (connInput st c .idle).2 := by
-  unfold connInput
-  simp only [h, Bool.not_true, Bool.and_false, Bool.false_eq_true, if_false]
+  have h0 : ¬ (Input.idle == Input.idle && !deadlineArmed st c) = true := by simp [h]
+  rw [connInput_outs st c _ h0]
+  unfold connInput0
   cases hph : c.phase with
   | httpWait k => simp only [beq_self_eq_true, if_true]; exact closeConn_emits st c
   | fresh => simp only [freshInput, rtspInput]; exact closeConn_emits _ _
